@@ -1097,6 +1097,19 @@ def r8_tree_builders(rule, root=None):
             continue
         t = str(A.ftxt(fn["body"]))
         m = re.fullmatch(r"\{(?:Self|Tree)::op_(unary|binary)\((.*),(Unary|Binary)Opcode::(\w+)\)\}", t)
+        if not m and fn["name"] not in ("op_unary", "op_binary") and fn.get("vis"):
+            # through a private helper of the same impl (`self.binary_with(other, BinaryOpcode::Max)`): read expanded
+            try:
+                t = str(A.ftxt(A.inline_helpers(fn)))
+            except Exception:  # noqa: BLE001
+                pass
+            m = re.fullmatch(r"\{(?:Self|Tree)::op_(unary|binary)\((.*),(Unary|Binary)Opcode::(\w+)\)\}", t)
+            if not m:
+                # expanded all the way down to the node constructor
+                m2 = re.fullmatch(r"\{*Tree\(Arc::new\(TreeOp::(Unary|Binary)\((Unary|Binary)Opcode::(\w+),(.*)\)\)\)\}*", t)
+                if m2:
+                    args_ = ",".join(a_[:-2] if a_.endswith(".0") else a_ + "?" for a_ in m2.group(4).split(","))
+                    m = re.fullmatch(r"(unary|binary)\|(.*)\|(Unary|Binary)\|(\w+)", "%s|%s|%s|%s" % (m2.group(1).lower(), args_, m2.group(2), m2.group(3)))
         if not m:
             continue
         kind, args, kind2, variant = m.group(1), m.group(2), m.group(3), m.group(4)
@@ -1133,8 +1146,8 @@ def r8_tree_builders(rule, root=None):
     ln = mdefs["impl_binary"]["ln"]
     facts = [
         ("Tree op x builds op(self, x)", "tree-op", r"impl<A:Into<Tree>>std::ops::\$op<A>forTree\{typeOutput=Self;fn\$base_fn\(self,(?P<o>\w+):A\)->Self\{Self::op_binary\(self,(?P=o)\.into\(\),BinaryOpcode::\$op\)\}\}"),
-        ("Tree op= x rebuilds self as op(self, x)", "tree-assign", r"fn\$assign_fn\(&mutself,(?P<o>\w+):A\)\{usestd::ops::\$op;letmut(?P<n>\w+)=self\.clone\(\)\.\$base_fn\((?P=o)\.into\(\)\);std::mem::swap\(self,&mut(?P=n)\);\}"),
-        ("number op Tree builds op(number, tree): the float stays on the left", "f32-op", r"implstd::ops::\$op<Tree>forf32\{typeOutput=Tree;fn\$base_fn\(self,(?P<o>\w+):Tree\)->Tree\{Tree::op_binary\(self\.into\(\),(?P=o),BinaryOpcode::\$op\)\}\}"),
+        ("Tree op= x rebuilds self as op(self, x)", "tree-assign", r"fn\$assign_fn\(&mutself,(?P<o>\w+):A\)\{(?:usestd::ops::\$op;letmut(?P<n>\w+)=self\.clone\(\)\.\$base_fn\((?P=o)\.into\(\)\);std::mem::swap\(self,&mut(?P=n)\);|(?:usestd::ops::\$op;)?\*self=(?:self\.clone\(\)\.\$base_fn\((?P=o)\.into\(\)\)|(?:Tree|Self)::op_binary\(self\.clone\(\),(?P=o)\.into\(\),BinaryOpcode::\$op,?\));)\}"),
+        ("number op Tree builds op(number, tree): the float stays on the left", "f32-op", r"implstd::ops::\$op<Tree>forf32\{typeOutput=Tree;fn\$base_fn\(self,(?P<o>\w+):Tree\)->Tree\{(?:Tree::op_binary\((?:self\.into\(\)|Tree::constant\(self\)|Tree::from\(self\)),(?P=o),BinaryOpcode::\$op\)|let(?P<l>\w+)(?::Tree)?=(?:self\.into\(\)|Tree::constant\(self\)|Tree::from\(self\));Tree::op_binary\((?P=l),(?P=o),BinaryOpcode::\$op\))\}\}"),
     ]
     for what, key, rx in facts:
         if re.search(rx, body):
@@ -1148,7 +1161,8 @@ def r8_tree_builders(rule, root=None):
     else:
         rule.bad("tree|impl_binary|table", "impl_binary! is invoked as %s; expected %s" % (inv, want), TREE)
     ng = [i for i in A.find_impls(TREE, self_ty="Tree", root=root) if (i.get("trait") or "").replace(" ", "").endswith("ops::Neg")]
-    if len(ng) == 1 and "Tree::op_unary(self,UnaryOpcode::Neg)" in str(A.ftxt([x for x in ng[0]["items"] if x.get("k") == "Fn"][0]["body"])):
+    ngt = str(A.ftxt([x for x in ng[0]["items"] if x.get("k") == "Fn"][0]["body"])) if len(ng) == 1 else ""
+    if ngt in ("{Tree::op_unary(self,UnaryOpcode::Neg)}", "{Self::op_unary(self,UnaryOpcode::Neg)}", "{Tree(Arc::new(TreeOp::Unary(UnaryOpcode::Neg,self.0)))}", "{TreeOp::Unary(UnaryOpcode::Neg,self.0).into()}") or re.fullmatch(r"\{letTree\((\w+)\)=self;(?:TreeOp::Unary\(UnaryOpcode::Neg,\1\)\.into\(\)|Tree\(Arc::new\(TreeOp::Unary\(UnaryOpcode::Neg,\1\)\)\))\}", ngt):
         rule.ok("-tree is Neg(tree)", file=TREE)
     else:
         rule.bad("tree|neg", "`-tree` must build UnaryOpcode::Neg of the tree", TREE)
